@@ -421,8 +421,44 @@ def still_twin_differs(prop, sc):
     return r.failures[0] if r.failures else None
 
 
+def mon_c16(sc, prof, pairs):
+    """after a panic inside a user callback / user trait impl: every container in lockstep, no value lost or
+    duplicated (the rows are a permutation of the rows before, whole elements), and at the very end the ledger is clean"""
+    out = []
+    kinds = kinds_of(sc.shape)
+    prev = None
+    wrote = False
+    for i, s in pairs:
+        if i["step"] == "end":
+            if i.get("double_drop") != "false" or i.get("leak") != "false":
+                out.append(Failure(sc, prof, "end", f"ledger after the fault and the final drop: double_drop={i.get('double_drop')} leak={i.get('leak')}", "C16:end:ledger", {"I": i["raw"]}))
+            continue
+        line = sc.lines[int(i["step"])]
+        op = line.split()[0]
+        if "wleaf" in line: wrote = True
+        if i.get("regs", "~") == "~": continue
+        regs = parse_regs(i["regs"])
+        faulty = ("panic=" in line) or (int(i["step"]) > 0 and sc.lines[int(i["step"]) - 1].split()[0] in ("clonefuse", "cmpfuse"))
+        if not lockstep_ok(regs):
+            out.append(Failure(sc, prof, i["step"], f"{line}: field arrays out of lockstep: {i['regs']}", f"C16:{op}:lockstep", {"I": i["raw"]}))
+            break
+        if not wrote and not aligned_ok(regs, kinds):
+            out.append(Failure(sc, prof, i["step"], f"{line}: a position holds fields of different elements: {i['regs']}", f"C16:{op}:aligned", {"I": i["raw"]}))
+            break
+        if faulty and i["status"] == "panic" and prev is not None and op in ("retain", "retain_mut", "sort", "refs", "to_vec"):
+            before = sorted(r for c in parse_regs(prev) for r in rows_of(c)); after = sorted(r for c in regs for r in rows_of(c))
+            if not wrote and before != after:
+                out.append(Failure(sc, prof, i["step"], f"{line}: elements lost or duplicated by the caught panic: before={prev} after={i['regs']}", f"C16:{op}:elements", {"I": i["raw"]}))
+                break
+        prev = i["regs"]
+    return out
+
+
 def mon_c17(sc, prof, pairs):
     return []
+
+
+MONITORS["C16"] = mon_c16
 
 
 def still_differs(prop, sc):
